@@ -278,6 +278,43 @@ def run(chk):
     for dd_, ops_, i_, why_, det_ in DC.default_write_failures(chk):
         chk.violation("defaultwrite_%s" % lib.enc(ops_[0])[-40:], "property C11: %s\ndocument: %s\ncall: %s\n%s\n" % (why_, dd_, ops_[0], det_))
         mfail.append((dd_, det_, "a specified attribute d with the written value", ""))
+    # a name declared TWICE: the first declaration binds (XML 1.0 4.2 for entities, 3.3 for attribute definitions), whatever
+    # stands between the two and however the value is reached (round-9 seed C11-N: the last declaration won)
+    DUP = [("<!DOCTYPE r [<!ENTITY e 'one two'><!ENTITY e 'later'>]><r a='[&e;]'/>", "[one two]"),
+           ("<!DOCTYPE r [<!ENTITY e 'x  y'><!ATTLIST r a NMTOKENS '&e;'><!ENTITY e 'z'>]><r/>", "x y"),
+           ("<!DOCTYPE r [<!ENTITY i 'in ner'><!ENTITY o '(&i;)'><!ENTITY i 'other'>]><r a='&o;'/>", "(in ner)"),
+           ("<!DOCTYPE r [<!ATTLIST r a CDATA 'first' a CDATA 'second'>]><r/>", "first"),
+           ("<!DOCTYPE r [<!ATTLIST r a NMTOKENS ' t1  t2 '><!ATTLIST r a CDATA ' raw '>]><r/>", "t1 t2"),
+           ("<!DOCTYPE r [<!ENTITY e 'v1'><!ENTITY e 'v2'><!ENTITY e 'v3'>]><r a='&e;&e;'/>", "v1v1")]
+    dimpl = lib.run_lines(lib.build_harness(), [lib.req("query", t, "", "string(/r/@a)") for t, _ in DUP], timeout=120, per_line_resume=True)
+    for (t, want_), a in zip(DUP, dimpl):
+        chk.count(["declared-twice", t], nontrivial=True)
+        got = a.split(" || ")[0]
+        if got != "s:" + lib.enc(want_):
+            chk.violation("twice_%s" % lib.enc(t)[-50:], "property C11: with a name declared twice the FIRST declaration binds\n"
+                          "document: %s\nstring(/r/@a): %s\nexpected: s:%s\n" % (t, got, lib.enc(want_)))
+            mfail.append((t, got, want_, ""))
+    # the value of an attribute is what its items hold NOW: an item edited in place (CharacterData calls on a Text child of the
+    # attribute) shows in the value at once, also when the value was read before (round-9 seed C11-M memoised the value)
+    from gen import domgen as D
+    AVD = "<r a='one' b='x&#9;y'/>"       # h0 document, h1 r, h2 a, h3 'one', h4 b, h5 'x', h6 &#9;, h7 'y'
+    AVT = "<!DOCTYPE r [<!ATTLIST r t NMTOKENS #IMPLIED>]><r t=' x y '/>"   # h0, h1 doctype, h2 r, h3 t, h4 ' x y '
+    avcases = [(AVD, ["ad:h3: two", "sd:h3:three  four", "id:h3:1:ZZ", "dd:h3:0:2", "rd:h3:0:1:q"]), (AVD, ["dd:h7:0:1", "ad:h5:\t", "sd:h7: w "]),
+               (AVD, ["sd:h3:two three"]), (AVT, ["ad:h4: z ", "id:h4:0: w ", "sd:h4:only"]), (AVT, ["dd:h4:0:3"])]
+    avimpl = lib.run_lines(lib.build_harness(), [lib.req("dom", t, "string(/r/@a);string(/r/@t)", *ops) for t, ops in avcases], timeout=120,
+                           per_line_resume=True)
+    for (t, ops), a in zip(avcases, avimpl):
+        for i, x in enumerate(D.split_records(a)):
+            chk.count(["value-item-edit", t] + ops[:i], nontrivial=i > 0 and x["status"].startswith("ok"))
+            iv = x["flags"].get("inv") or ""
+            q = x["flags"].get("q") or ""
+            if "reports the value" in iv or (q not in ("ok", "skip", "") and "SIDE-EFFECT" not in q):
+                det = iv if "reports the value" in iv else q
+                chk.violation("itemedit_%s" % lib.enc(" ".join(ops[:i]))[-50:], "property C11: after an in-place edit of a value item the "
+                              "attribute reports a value that is not what its items hold (or not what a fresh parse of the serialization "
+                              "reports)\ndocument: %s\ncalls: %s\n%s\n" % (t, " ".join(ops[:i]), det[:600]))
+                mfail.append((t, det[:200], "the value its items hold", ""))
+                break
     chk.cov["systematic_cases"] = n_sys
     chk.cov["input_distribution"] = hist
     chk.cov["disagreements_checked"] = len(tdis)
